@@ -1,6 +1,7 @@
 package main
 
 import (
+	"go/constant"
 	"go/token"
 	"regexp"
 	"sort"
@@ -672,4 +673,75 @@ func matchEither(rx *regexp.Regexp, lit string) bool {
 		return true
 	}
 	return false
+}
+
+// boolResultTargets returns the points at which result v of fn can take the value want: the returns themselves for
+// values computed elsewhere, and for a phi the terminators of the predecessor blocks whose incoming value may be want
+// (a constant !want contributes nothing; an incoming If edge listed in cut contributes nothing either).
+func boolResultTargets(v ssa.Value, want bool, at ssa.Instruction, cut *Cut, rx *regexp.Regexp, seen map[ssa.Value]bool) []ssa.Instruction {
+	if seen[v] {
+		return nil
+	}
+	seen[v] = true
+	if _, isConst := v.(*ssa.Const); !isConst && rx != nil && matchEither(rx, normCond(v, want)) {
+		return nil // the value being `want` is the condition itself
+	}
+	switch x := v.(type) {
+	case *ssa.Const:
+		if x.Value != nil && x.Value.Kind() == constant.Bool && constant.BoolVal(x.Value) != want {
+			return nil
+		}
+		return []ssa.Instruction{at}
+	case *ssa.UnOp:
+		if x.Op == token.NOT {
+			return boolResultTargets(x.X, !want, at, cut, rx, seen)
+		}
+	case *ssa.Phi:
+		var out []ssa.Instruction
+		for i, e := range x.Edges {
+			pred := x.Block().Preds[i]
+			term := pred.Instrs[len(pred.Instrs)-1]
+			if _, isIf := term.(*ssa.If); isIf {
+				skip := true
+				for si, s := range pred.Succs {
+					if s == x.Block() && !cut.Edges[Edge{pred, si}] {
+						skip = false
+					}
+				}
+				if skip {
+					continue
+				}
+			}
+			out = append(out, boolResultTargets(e, want, term, cut, rx, seen)...)
+		}
+		return out
+	}
+	return []ssa.Instruction{at}
+}
+
+// ResultImpliesCond: whenever bool result k of fn is `val`, a condition matching re holds — every path from the entry
+// to a return (or phi edge) on which the result may be val takes an edge on which the condition holds. Decided on the
+// CFG, so `return a == 0 || f()`, `if a == 0 { return true }; return f()` and their mirrored/negated spellings agree.
+func (c *Ctx) ResultImpliesCond(rule string, fn *ssa.Function, k int, val bool, inst, condName, re, okMsg, badMsg string) bool {
+	c.Analysed[fname(fn)] = true
+	held := HeldEdges(fn, re)
+	rx := regexp.MustCompile(re)
+	cut := NewCut().AddEdges(held...)
+	var targets []ssa.Instruction
+	nres := 0
+	for _, r := range Returns(fn) {
+		if k < len(r.Results) {
+			targets = append(targets, boolResultTargets(r.Results[k], val, r, cut, rx, map[ssa.Value]bool{})...)
+			nres++
+		}
+	}
+	ok := nres > 0
+	site := c.P.Pos(fn.Pos())
+	for _, t := range targets {
+		if Reach(fn, nil, nil, isInstr(t), cut) != nil {
+			ok = false
+			site = c.P.InstrPos(t)
+		}
+	}
+	return c.Check(ok, rule, inst, site, okMsg+" (condition "+condName+"; "+itoa(len(targets))+" result points, "+itoa(len(held))+" edges)", badMsg)
 }
